@@ -41,6 +41,7 @@ func init() {
 			{Name: "range-key-only-dropped", File: "cl/stmt.go", Old: "\t\t} else {\n\t\t\tcompileExprLHS(ctx, v.Key)\n\t\t\tn++\n\t\t}\n", New: "\t\t} else if v.Value != nil {\n\t\t\tcompileExprLHS(ctx, v.Key)\n\t\t\tn++\n\t\t}\n", Expect: "operand-coverage/compileRangeStmt.Key"},
 			{Name: "if-else-only-with-init", File: "cl/stmt.go", Old: "\tif e := v.Else; e != nil {\n\t\tcb.Else(e)", New: "\tif e := v.Else; e != nil && v.Init != nil {\n\t\tcb.Else(e)", Expect: "operand-coverage/compileIfStmt.Else"},
 			{Name: "chan-dir-ignored", File: "cl/func_type_and_var.go", Old: "types.NewChan(typesChanDirs[v.Dir], toType(ctx, v.Value))", New: "types.NewChan(types.SendRecv, toType(ctx, v.Value))", Expect: "lower-field/ChanType.Dir"},
+			{Name: "gopexec-call-loses-ellipsis", File: e, Old: "v = &ast.CallExpr{Fun: fn, Args: args, Ellipsis: v.Ellipsis, NoParenEnd: v.NoParenEnd}", New: "v = &ast.CallExpr{Fun: fn, Args: args, NoParenEnd: v.NoParenEnd}", Expect: "rebuild-keeps-fields/compileCallExpr:CallExpr"},
 			{Name: "token-renumbered", File: "token/token.go", Old: "\tADD // +\n\tSUB // -\n", New: "\tSUB // -\n\tADD // +\n", Expect: "token-value/ADD"},
 		},
 	})
@@ -72,6 +73,9 @@ var c01FieldDerived = map[string]string{
 	"EmptyStmt.Implicit":  "records whether the semicolon was written; an empty statement means nothing either way",
 	"RangeStmt.NoRangeOp": "surface syntax only: `for k, v := range x` and `for k, v in x` (no `range` keyword) mean the same loop",
 }
+
+// c01RebuildReviewed: node literals of cl that rebuild a node from another and deliberately leave fields out.
+var c01RebuildReviewed = map[string]string{}
 
 // c01Order: the operand fields in Go's evaluation order, per lowering routine.
 var c01Order = map[string][]string{
@@ -323,6 +327,10 @@ func runC01(c *core.Check) {
 	}
 
 	c.Floor("lower-field", 60)
+	if nodeI := ifaceOf(apk.Types.Scope().Lookup("Node").Type()); nodeI != nil {
+		c.Analysed("rebuilt_node_literals", rebuildRule(c, pk, nodeI, "rebuild-keeps-fields", c01RebuildReviewed))
+		c.Floor("rebuild-keeps-fields", 2)
+	}
 
 	// ---------- (3b) name resolution: the scope chain is consulted before the package-level symbol loaders
 	// (Go: the innermost declaration wins; a function-local type or variable shadows a package-level one)
